@@ -12,7 +12,7 @@ ASBUILT_FILE = os.path.join(core.VERIF, "spec", "asbuilt_c1.json")
 def asbuilt():
     """Variant constants describing the current tree (justified by trace validation: the New event must show
     keep_size_before = KeepBefore, renormalisation samples must satisfy Norm)."""
-    d = {"PassExtra": "FALSE", "NormKind": "sat"}
+    d = {"PassExtra": "FALSE", "NormKind": "sat", "MoveKeepsPending": "FALSE", "PendingAssertStrict": "TRUE"}
     if os.path.exists(ASBUILT_FILE):
         d.update(json.load(open(ASBUILT_FILE)))
     return d
@@ -20,13 +20,20 @@ def asbuilt():
 
 # --------------------------------------------------------------------------- EncWindow: scaled model configurations
 ENC_INV = ["TypeOK", "IndicesInRange", "HistoryRetained", "ExtendInRange", "AllBytesAccounted", "NoStuck",
-           "CopyInRange", "MatchSourceInRange", "LookAheadGate", "MoveInRange", "NoEmptyChunk"]
+           "CopyInRange", "MatchSourceInRange", "LookAheadGate", "MoveInRange", "NoEmptyChunk", "PendingAssertHolds"]
+
+
+def variants(pass_extra=None):
+    ab = asbuilt()
+    return dict(PassExtra=pass_extra or ab["PassExtra"], MoveKeepsPending=ab["MoveKeepsPending"],
+                PendingAssertStrict=ab["PendingAssertStrict"])
 
 
 def scaled(**kw):
     c = dict(Dict=2, ModeBefore=1, ExtraAfter=2, MatchMax=3, Reserve=2, Align=1, RawMax=8, CLimit=5, RawCap=6, ULimit=9,
              ReqFlush=2, ReqFinish=2, SkipLooksBack="FALSE", MaxLook=2, MaxRA=0, Writer='"lzma2"',
-             PassExtra=asbuilt()["PassExtra"], ChunkSize=0, PresetLen=0, N=30, MaxWrite=4, TraceMode="FALSE")
+             ChunkSize=0, PresetLen=0, N=30, MaxWrite=4, TraceMode="FALSE")
+    c.update(variants())
     c.update(kw)
     return {k: str(v) for k, v in c.items()}
 
@@ -44,7 +51,7 @@ SCALED_CFGS = {
     "normal-hc4-bigdict": (dict(Dict=8, RawCap=4, **NORMAL), dict(mode="normal", mf="hc4", dict=65536)),
     "lzma1-fast-hc4": (dict(Writer='"lzma1"', N=24), dict(writer="lzma1", mode="fast", mf="hc4", dict=4096)),
     "lzma1-normal-bt4": (dict(Writer='"lzma1"', N=24, **NORMAL, **BT4), dict(writer="lzma1", mode="normal", mf="bt4", dict=4096)),
-    "chunksize": (dict(ChunkSize=6, N=24), dict(mode="fast", mf="hc4", dict=4096, chunk_size=4096)),
+    "chunksize": (dict(ChunkSize=6, N=24), dict(mode="fast", mf="hc4", dict=4096, chunk_size=300000)),
     "preset": (dict(PresetLen=2, N=24), dict(mode="fast", mf="hc4", dict=4096, preset=2000)),
 }
 
@@ -63,9 +70,10 @@ def real_consts(opt, writer="lzma2", chunk_size=None, preset_len=0, pass_extra=N
              Reserve=min(d // 2 + (256 << 10), 512 << 20), Align=64, RawMax=65536, CLimit=65510, RawCap=65536,
              ULimit=(2 << 20) - 273, ReqFlush=int(opt.get("nice", 32)) if bt4 else 4, ReqFinish=4,
              SkipLooksBack="TRUE" if bt4 else "FALSE", MaxLook=272 if fast else 4096, MaxRA=0 if fast else 4095,
-             Writer='"%s"' % writer, PassExtra=pass_extra or asbuilt()["PassExtra"],
+             Writer='"%s"' % writer,
              ChunkSize=max(int(chunk_size), d) if chunk_size else 0, PresetLen=min(int(preset_len), d), N=0, MaxWrite=0,
              TraceMode="TRUE")
+    c.update(variants(pass_extra))
     return {k: str(v) for k, v in c.items()}
 
 
@@ -77,7 +85,7 @@ def job_consts(job):
 WIN_EVENTS = {"A", "New", "Preset", "Fill", "Flush", "Finish", "Enc", "Sym", "Chunk"}
 NORM_EVENTS = {"Renorm", "NormTab", "NormSmp"}
 TRACE_INV = ["Track", "IndicesInRange", "HistoryRetained", "AllBytesAccounted", "CopyInRange", "MatchSourceInRange",
-             "LookAheadGate", "MoveInRange", "NoEmptyChunk"]
+             "LookAheadGate", "MoveInRange", "NoEmptyChunk", "PendingAssertHolds"]
 
 
 def validate_window_traces(items, timeout=900, pool=None):
@@ -212,10 +220,19 @@ def judge_roundtrip(job, res):
            "dict_lt_64k": o["dict"] < 65536, "input": input_class(job),
            "chunk_size": bool(job.get("chunk_size")), "preset": bool(job.get("preset")),
            "flush": any(s["op"] == "f" for s in job.get("script", [])), "bias": bool(job.get("bias")),
-           "site": panic_site(res.get("detail", ""))}
+           "site": panic_site(res.get("detail", "")),
+           "err": res.get("detail", "")[:40] if oc in ("dec_err", "enc_err") else "",
+           # an uncompressed chunk with dictionary reset in the middle of the stream directly followed by an LZMA chunk
+           # that resets the dictionary again (LZMA2Writer::force_independent_chunk left set: DESIGN.md D2)
+           "pattern_01_e0": _has_01_e0(res)}
     what = (f"{job['writer']} round trip fails: {oc}: {res.get('detail', '')[:200]} "
             f"(dict={o['dict']} mode={o['mode']} mf={o['mf']} nice={o['nice']} input={input_class(job)}/{size_class(job)})")
     return what, sig
+
+
+def _has_01_e0(res):
+    head = (res.get("census") or {}).get("head") or []
+    return any(a == 1 and b == 0xE0 for a, b in zip(head[1:], head[2:]))
 
 
 def panic_site(detail):
